@@ -113,9 +113,9 @@ Fixpoint lstrip0 (l : bytes) : bytes :=
   | c :: (_ :: _) as r => if Ascii.eqb c "0" then lstrip0 r else l
   | _ => l
   end.
-(* the decimal numeral of n without leading zeros.  N.size_nat n (bit length) digits are
+(* the decimal numeral of n without leading zeros.  N.size n (bit length) digits are
    always enough (10^k >= 2^k > n), one more so that 0 gives "0". *)
-Definition to_digits (n : N) : bytes := lstrip0 (digs_k (S (N.size_nat n)) n).
+Definition to_digits (n : N) : bytes := lstrip0 (digs_k (S (N.to_nat (N.size n))) n).
 
 (* value of a digit string (callers check is_digit first) *)
 Definition of_digits (l : bytes) : N :=
@@ -136,13 +136,16 @@ Fixpoint int_body (l : bytes) (acc : N) (prev_digit : bool) : option N :=
       else if Ascii.eqb c "_" && prev_digit then int_body r acc false
       else None
   end.
+(* optional sign *)
+Definition split_sign (s : bytes) : bool * bytes :=
+  match s with
+  | c :: r => if Ascii.eqb c "-" then (true, r)
+              else if Ascii.eqb c "+" then (false, r) else (false, s)
+  | [] => (false, s)
+  end.
 Definition py_int (l : bytes) : res Z :=
   let s := strip_c l in
-  let (neg, body) := match s with
-                     | "-" :: r => (true, r)
-                     | "+" :: r => (false, r)
-                     | _ => (false, s)
-                     end in
+  let (neg, body) := split_sign s in
   match int_body body 0%N false with
   | Some n => Ok (if neg then (- Z.of_N n)%Z else Z.of_N n)
   | None => Err EValue
@@ -176,11 +179,7 @@ Definition parse_float (l : bytes) : res pdec :=
   let s := strip_c l in
   let fail := if forallb float_alphabet s && negb (forallb plain_alphabet s)
               then Err EType else Err EValue in
-  let (neg, body) := match s with
-                     | "-" :: r => (true, r)
-                     | "+" :: r => (false, r)
-                     | _ => (false, s)
-                     end in
+  let (neg, body) := split_sign s in
   let (ip, rest) := span is_digit body in
   match rest with
   | [] => if isnil ip then fail else Ok (mkpdec neg (of_digits ip) 0)
